@@ -63,10 +63,8 @@ def plan(tier, seed):
         items.append(dict(kind="system", date=str(d), k=0, seed=seed))
     items.append(dict(kind="sequence", seed=seed))
     tax_dates = sorted({max(d, lo) for d, _ in ref.entries("eink_st", "eink_st_tarif")} | {d for d, _ in ref.entries("soli_st", "soli_st") if d >= lo})
-    if tier == "quick":
-        soli_dates = {d for d, _ in ref.entries("soli_st", "soli_st") if d >= lo}
-        tax_dates = sorted(soli_dates | {d for d in tax_dates if d.year >= 2015} | {tax_dates[0], tax_dates[len(tax_dates) // 2],
-                           *[tax_dates[int(i)] for i in r.choice(len(tax_dates), 3, replace=False)]})
+    # every date at which the income-tax schedule or the surcharge changes, in both tiers (a shape item costs < 1 s; one
+    # dated entry with hand-written intercepts is enough to break continuity for two years only)
     for d in tax_dates:
         items.append(dict(kind="shape", date=str(d), seed=seed, tier=tier))
     return items
